@@ -394,10 +394,12 @@ fn training(t: u64) -> Vec<Vec<u8>> {
         // few pushes, all distinct: every string holds 1/3 (all) of the statistics; the summary's buffer is as long as
         // it is full (a clone of it has no spare capacity)
         8 => vec![b"abc".to_vec(), b"xyz".to_vec(), b"q".to_vec()],
-        _ => vec![b"solo".to_vec()],
+        9 => vec![b"solo".to_vec()],
+        // the empty byte string among the source items (and dominating them)
+        _ => rep(b"", 3).chain(rep(b"ab", 2)).collect(),
     }
 }
-pub const N_TRAIN: u64 = 10;
+pub const N_TRAIN: u64 = 11;
 
 /// Probe strings, relative to the training set: dictionary entries, prefixes/extensions of them, strings whose first
 /// byte is a low tag value (0, 1, 2: the tags handed to heavy hitters), all-one-byte strings, the empty string.
@@ -406,7 +408,7 @@ fn probe(sel: u64, train: &[Vec<u8>]) -> Vec<u8> {
     match sel {
         0 => vec![],
         1 => first.clone(),
-        2 => first[..first.len() - 1].to_vec(),
+        2 => first[..first.len().saturating_sub(1)].to_vec(),
         3 => [first.as_slice(), b"!"].concat(),
         4 => vec![0],
         5 => vec![0, 1, 2],
@@ -480,15 +482,24 @@ fn run_dict(v: &[u64]) {
     for x in &all {
         *counts.entry((*x).clone()).or_insert(0usize) += 1;
     }
-    let free_tags = (0..=255u8).filter(|b| !all.iter().any(|x| x[0] == *b)).count();
+    let free_tags = (0..=255u8).filter(|b| !all.iter().any(|x| x.first() == Some(b))).count();
     for (s, n) in &counts {
         if 4 * n >= all.len() && free_tags >= 4 {
             let before = used_bytes(&m);
             attempts.push(s.clone());
             if push_checked(&mut m, s, &mut issued) {
-                vassert!(used_bytes(&m) - before == 1, "VF:dictionary.heavy_hitter_not_one_byte");
+                // (one byte; the empty string costs none)
+                vassert!(used_bytes(&m) - before == s.len().min(1), "VF:dictionary.heavy_hitter_not_one_byte");
             }
         }
+    }
+    // the empty byte string is representable under every dictionary: it must be accepted and read back, trained or not
+    {
+        attempts.push(Vec::new());
+        vassert!(push_checked(&mut m, b"", &mut issued), "VF:dictionary.empty_refused");
+        let mut fresh = CR::default();
+        let mut iss_f = Vec::new();
+        vassert!(push_checked(&mut fresh, b"", &mut iss_f) && push_checked(&mut fresh, b"x", &mut iss_f) && push_checked(&mut fresh, b"", &mut iss_f), "VF:dictionary.empty_refused");
     }
     for sel in [v[3], v[4]] {
         let p = probe(sel, &t1);
@@ -1130,6 +1141,14 @@ impl Coded for flatcontainer::ResultRegion<CR, HuffmanContainer<u8>> {
         match self.index(i) { Ok(x) => x.to_vec(), Err(x) => x.into_owned() }
     }
 }
+impl Coded for flatcontainer::ResultRegion<CR, CR> {
+    const HUFFMAN: bool = false;
+    fn put(&mut self, k: u64) -> Vec<u8> {
+        let item: Result<&[u8], &[u8]> = if k % 2 == 0 { Ok(CPOOL[k as usize]) } else { Err(CPOOL[k as usize]) };
+        let i = self.push(item);
+        match self.index(i) { Ok(x) => std::iter::once(0u8).chain(x.iter().copied()).collect(), Err(x) => std::iter::once(1u8).chain(x.iter().copied()).collect() }
+    }
+}
 fn try_put<R: Coded>(r: &mut R, k: u64) -> Option<Vec<u8>> {
     catch_unwind(AssertUnwindSafe(|| r.put(k))).ok()
 }
@@ -1198,14 +1217,80 @@ fn run_coded_life(v: &[u64]) {
         4 => coded_life::<CollapseSequence<CR>>(v),
         5 => coded_life::<flatcontainer::OptionRegion<HuffmanContainer<u8>>>(v),
         6 => coded_life::<flatcontainer::SliceRegion<HuffmanContainer<u8>>>(v),
-        _ => coded_life::<flatcontainer::ResultRegion<CR, HuffmanContainer<u8>>>(v),
+        7 => coded_life::<flatcontainer::ResultRegion<CR, HuffmanContainer<u8>>>(v),
+        _ => coded_life::<flatcontainer::ResultRegion<CR, CR>>(v),
     }
 }
 fn pre_coded_life(v: &[u64]) -> bool {
-    v[0] < 8 && v[1] < 4 && v[2..].iter().all(|x| *x < 6)
+    v[0] < 9 && v[1] < 4 && v[2..].iter().all(|x| *x < 6)
 }
 fn doms_coded_life() -> Vec<Vec<u64>> {
-    vec![range(8), range(4), range(6), vec![0, 5], vec![0, 3], range(6), vec![1, 4]]
+    vec![range(9), range(4), range(6), vec![0, 5], vec![0, 3], range(6), vec![1, 4]]
+}
+
+// FlatStack constructors that pre-size (`with_capacity`, `FromIterator`, which goes through it) must hand out a stack that
+// behaves like `default()`: for a coded region "built like merge_regions over nothing" is NOT the default state.
+// args: subject (0..4), cap (with_capacity argument selector), k0 k1 k2 (pool items)
+trait FsSubject: Region + Default + Sized {
+    fn copy_k(fs: &mut flatcontainer::FlatStack<Self>, k: u64);
+    fn dump(fs: &flatcontainer::FlatStack<Self>) -> Vec<Vec<u8>>;
+    fn collect_ks(ks: &[u64]) -> flatcontainer::FlatStack<Self>;
+}
+impl FsSubject for HuffmanContainer<u8> {
+    fn copy_k(fs: &mut flatcontainer::FlatStack<Self>, k: u64) { fs.copy(CPOOL[k as usize]) }
+    fn dump(fs: &flatcontainer::FlatStack<Self>) -> Vec<Vec<u8>> { (0..fs.len()).map(|i| fs.get(i).into_owned()).collect() }
+    fn collect_ks(ks: &[u64]) -> flatcontainer::FlatStack<Self> { ks.iter().map(|k| CPOOL[*k as usize]).collect() }
+}
+impl FsSubject for CR {
+    fn copy_k(fs: &mut flatcontainer::FlatStack<Self>, k: u64) { fs.copy(CPOOL[k as usize]) }
+    fn dump(fs: &flatcontainer::FlatStack<Self>) -> Vec<Vec<u8>> { (0..fs.len()).map(|i| fs.get(i).to_vec()).collect() }
+    fn collect_ks(ks: &[u64]) -> flatcontainer::FlatStack<Self> { ks.iter().map(|k| CPOOL[*k as usize]).collect() }
+}
+impl FsSubject for flatcontainer::StringRegion<CR> {
+    fn copy_k(fs: &mut flatcontainer::FlatStack<Self>, k: u64) { fs.copy(std::str::from_utf8(CPOOL[k as usize]).unwrap()) }
+    fn dump(fs: &flatcontainer::FlatStack<Self>) -> Vec<Vec<u8>> { (0..fs.len()).map(|i| fs.get(i).as_bytes().to_vec()).collect() }
+    fn collect_ks(ks: &[u64]) -> flatcontainer::FlatStack<Self> { ks.iter().map(|k| std::str::from_utf8(CPOOL[*k as usize]).unwrap()).collect() }
+}
+impl FsSubject for flatcontainer::OwnedRegion<u8> {
+    fn copy_k(fs: &mut flatcontainer::FlatStack<Self>, k: u64) { fs.copy(CPOOL[k as usize]) }
+    fn dump(fs: &flatcontainer::FlatStack<Self>) -> Vec<Vec<u8>> { (0..fs.len()).map(|i| fs.get(i).to_vec()).collect() }
+    fn collect_ks(ks: &[u64]) -> flatcontainer::FlatStack<Self> { ks.iter().map(|k| CPOOL[*k as usize]).collect() }
+}
+fn fs_ctor<R: FsSubject>(v: &[u64]) {
+    use flatcontainer::FlatStack;
+    let ks = [v[2], v[3], v[4]];
+    let cap = [0usize, 3, 100][v[1] as usize];
+    let mut a = FlatStack::<R>::default();
+    let mut b = FlatStack::<R>::with_capacity(cap);
+    vassert!(b.is_empty() && b.len() == 0, "VF:flatstack_ctor.with_capacity_not_empty");
+    for k in ks {
+        let ra = catch_unwind(AssertUnwindSafe(|| R::copy_k(&mut a, k))).is_ok();
+        let rb = catch_unwind(AssertUnwindSafe(|| R::copy_k(&mut b, k))).is_ok();
+        vassert!(ra == rb, "VF:flatstack_ctor.with_capacity_differs_from_default");
+        if !ra {
+            return;
+        }
+        vassert!(a.len() == b.len() && R::dump(&a) == R::dump(&b), "VF:flatstack_ctor.with_capacity_differs_from_default");
+    }
+    let c = catch_unwind(AssertUnwindSafe(|| R::collect_ks(&ks)));
+    match c {
+        Ok(c) => vassert!(c.len() == a.len() && R::dump(&c) == R::dump(&a), "VF:flatstack_ctor.from_iter_differs_from_copies"),
+        Err(_) => vassert!(false, "VF:flatstack_ctor.from_iter_differs_from_copies"),
+    }
+}
+fn run_fs_ctor(v: &[u64]) {
+    match v[0] {
+        0 => fs_ctor::<HuffmanContainer<u8>>(v),
+        1 => fs_ctor::<CR>(v),
+        2 => fs_ctor::<flatcontainer::StringRegion<CR>>(v),
+        _ => fs_ctor::<flatcontainer::OwnedRegion<u8>>(v),
+    }
+}
+fn pre_fs_ctor(v: &[u64]) -> bool {
+    v[0] < 4 && v[1] < 3 && v[2..].iter().all(|x| *x < 6)
+}
+fn doms_fs_ctor() -> Vec<Vec<u64>> {
+    vec![range(4), range(3), range(6), range(6), vec![0, 3, 5]]
 }
 
 // C18 for CodecRegion<DictionaryCodec> over a history long enough to cross the heavy-hitter summary's compaction
@@ -1242,8 +1327,10 @@ pub fn harnesses() -> Vec<H> {
             bound: "16 frequency profiles (1..4 symbols with counts 1..4, Fibonacci 10/16/21 symbols, 257/600 equiprobable u16) x all pairs of 12 item shapes (empty .. 24 symbols; every start/end bit offset; 0,1,2+ whole bytes) + third item in {empty, 8 symbols} x {one source; two generations; two sources over the same alphabet with different count shapes; three sources raw/empty/coded} x symbol outside the statistics; clear of a coded container before its first symbol; code books built from no statistics (zero sources, empty sources) store and return the empty item", kani: false },
         H { name: "heap_codec", props: &["C18"], nargs: 2, pre: pre_heap_codec, doms: doms_heap_codec, run: run_heap_codec, panic_ok: false,
             bound: "CodecRegion<DictionaryCodec>: 40 / 1100 / 2300 distinct 4-byte items: after every push used <= capacity per pair, summed used bytes never decrease and are at least the payload; after clear no capacity shrinks", kani: false },
+        H { name: "flatstack_ctor", props: &["C10", "C03"], nargs: 5, pre: pre_fs_ctor, doms: doms_fs_ctor, run: run_fs_ctor, panic_ok: false,
+            bound: "FlatStack over HuffmanContainer<u8>, CodecRegion<DictionaryCodec>, StringRegion<CodecRegion<..>>, OwnedRegion<u8>: with_capacity(0 / 3 / 100) and FromIterator versus default() + copy for three items of a 6-value pool (incl. the empty item): same acceptance, same length, same reads", kani: false },
         H { name: "coded_life", props: &["C08", "C10"], nargs: 7, pre: pre_coded_life, doms: doms_coded_life, run: run_coded_life, panic_ok: true,
-            bound: "8 compositions with a coded leaf (Option / Slice / String / ConsecutiveIndexPairs / CollapseSequence over CodecRegion<DictionaryCodec>; Option / Slice over HuffmanContainer<u8>; Result of both): history of 3 pool values (incl. tag-like literals, the empty string, repeated strings), then clear (two cycles) / clear of a merged region / reserve_regions on an empty or one-item region (dictionary compositions only), then 4 further pushes compared with a default (or never-reserving) twin: same acceptance, same reads", kani: false },
+            bound: "9 compositions with a coded leaf (Option / Slice / String / ConsecutiveIndexPairs / CollapseSequence / Result (both sides) over CodecRegion<DictionaryCodec>; Option / Slice over HuffmanContainer<u8>; Result of both): history of 3 pool values (incl. tag-like literals, the empty string, repeated strings), then clear (two cycles) / clear of a merged region / reserve_regions on an empty or one-item region (dictionary compositions only), then 4 further pushes compared with a default (or never-reserving) twin: same acceptance, same reads", kani: false },
         H { name: "huffman_full", props: &["C06"], nargs: 6, pre: pre_huff, doms: doms_huff, run: run_huff, panic_ok: false,
             bound: "all 340 profiles over alphabets of 1..4 symbols with counts 1..4, Fibonacci-skewed 10..21 symbols (codes to 20 bits), 257/300/600 equiprobable u16 symbols x all pairs of 12 item shapes x third item in {empty, 8, 17 symbols} x 1-2 merge generations x outsider symbol (thorough tier)", kani: false },
         H { name: "columns_coded_merge", props: &["C10", "C08"], nargs: 2, pre: pre_ccm, doms: doms_ccm, run: run_ccm, panic_ok: false,
